@@ -181,7 +181,7 @@ Builtin(g) ==
     [] g \in {"u3", "u", "U", "pxz"} -> <<3, 1>>
     [] g \in {"cx", "CX", "cy", "cz", "ch", "swap", "csx", "cv", "cs", "ct", "b", "ecr", "iswap", "sqisw", "syc", "xx", "yy", "zz"} -> <<0, 2>>
     [] g \in {"crx", "cry", "crz", "cu1", "cp", "rxx", "ryy", "rzz"} -> <<1, 2>>
-    [] g \in {"cu2", "fsim"} -> <<2, 2>>
+    [] g \in {"cu2", "fsim", "mpry", "mprz"} -> <<2, 2>>
     [] g = "cu3" -> <<3, 2>>
     [] g = "cu" -> <<4, 2>>
     [] g = "diag" -> <<3, 2>>
